@@ -341,7 +341,14 @@ arr_list
     :
         { $$ = 0 }
     | arr_list '[' ']'
-        { $$++ }
+        {
+            if $1 == 1<<15 - 1 {
+                mmlex.(*mmLexInfo).fail($<loc>2, $<val>2,
+                    "too many array dimensions")
+                return 1
+            }
+            $$++
+        }
     ;
 
 in_param_list
